@@ -202,6 +202,28 @@ type srvWorld struct {
 	depth, batch uint32
 	ps           *prover.ProvingSystem
 	rng          *rand.Rand
+	// shared != nil: every request of the current behaviour/round is stated against the SAME tree state (same pre-root, same
+	// start index for insertion) and differs only in what it writes — the situation of several batchers racing on one contract state
+	shared *rand.Rand
+	sharedSeed int64
+}
+
+// newRound starts a new group of requests; with probability 1/2 they share the tree state
+func (w *srvWorld) newRound() {
+	w.shared = nil
+	if w.rng.Intn(2) == 0 {
+		w.sharedSeed = w.rng.Int63()
+	} else {
+		w.sharedSeed = 0
+	}
+}
+
+// stateRng: the generator that builds the tree history (shared across the round when sharedSeed != 0)
+func (w *srvWorld) stateRng() *rand.Rand {
+	if w.sharedSeed != 0 {
+		return rand.New(rand.NewSource(w.sharedSeed))
+	}
+	return w.rng
 }
 
 func newWorld(mode string, depth, batch uint32) *srvWorld {
@@ -210,7 +232,7 @@ func newWorld(mode string, depth, batch uint32) *srvWorld {
 
 func (w *srvWorld) validParams() (js []byte, hash *big.Int) {
 	if w.mode == "insertion" {
-		p := randomValidInsertion(w.rng, int(w.depth), int(w.batch))
+		p := randomValidInsertion2(w.stateRng(), w.rng, int(w.depth), int(w.batch))
 		js, _ = json.Marshal(p)
 		return js, new(big.Int).Set(&p.InputHash)
 	}
@@ -223,7 +245,7 @@ func (w *srvWorld) unsatParams() []byte {
 	// a well-formed document of the right dimensions whose post-root is wrong (hash recomputed so that
 	// only the tree relation fails)
 	if w.mode == "insertion" {
-		p := randomValidInsertion(w.rng, int(w.depth), int(w.batch))
+		p := randomValidInsertion2(w.stateRng(), w.rng, int(w.depth), int(w.batch))
 		p.PostRoot = *new(big.Int).Mod(new(big.Int).Add(&p.PostRoot, big.NewInt(1)), bn254R)
 		p.InputHash = *refInputHashInsertion(p)
 		js, _ := json.Marshal(p)
@@ -425,6 +447,7 @@ func replayBehaviour(w *srvWorld, bh *specBehaviour, allKeys map[string]bool) (m
 	sort.Strings(ids)
 	reqs := map[string]*builtReq{}
 	var all []*builtReq
+	w.newRound()
 	for _, id := range ids {
 		reqs[id] = w.build(bh.Reqs[id])
 		all = append(all, reqs[id])
